@@ -47,6 +47,8 @@ fn text_piece() -> BoxedStrategy<String> {
         4 => select(vec!["と", "っ", "です", "や", "の"]).prop_map(|s| s.to_string()),
         10 => select(vec!["あ", "い", "漢", "字", "な", "娘", "モ", "ー", "é", "𠮷"]).prop_map(|s| s.to_string()),
         2 => select(vec![" ", "　", "\n", "\t"]).prop_map(|s| s.to_string()),
+        // characters that mean something inside a regular expression or a character class, and other neutral signs
+        2 => select(vec!["\\", "¥", "＼", "/", "-", "_", "^", "|", "*", "+", "$", "~", "&", "#", "@", "C:\\a\\", "\\n"]).prop_map(|s| s.to_string()),
     ]
     .boxed()
 }
@@ -58,6 +60,8 @@ fn word() -> BoxedStrategy<String> {
         // more than 30 bytes before the end of the terminator
         1 => select(vec!["あいあいあいあいあいあ。い", "あいあいあいあいあい娘。", "Wake Up, Girls and Boys and Girls!", "abcdefghijklmnopqrstuvwxyzabcde!f"]).prop_map(|s| s.to_string()),
         3 => select(vec!["Y!", "a!", "!?", "w?", "a.", "é!", "1.", "B?!"]).prop_map(|s| s.to_string()),
+        // more than 10 characters but at most 30 bytes before the end of the terminator
+        1 => select(vec!["Angel Beats!", "Wake Up, Girls!", "BanG Dream!a", "abcdefghijklmnopqrstuvwxyz!", "éééééééééééé!", "Love Live! Sunshine!!"]).prop_map(|s| s.to_string()),
         6 => vec(select(vec!["あ", "い", "漢", "字", "な", "娘", "a", "1"]), 1..=3).prop_map(|v| v.concat()),
     ]
     .boxed()
@@ -168,7 +172,7 @@ impl Property for C16 {
         let sparse = (
             prop_oneof![1 => vec(simple_word(), 0..5), 1 => vec(prop_oneof![simple_word(), select(vec!["な。な", "娘。", "。な", "あ。あ", "モー娘。"]).prop_map(|x| x.to_string())], 1..5)],
             select(vec!["。", "。", "。", "。", "。", "？", "！", "♪", "…", "?", "!", ".", "．", "・・・", "<br><br>", "<BR><BR>", "<br><BR>", "<BR><br><BR>"]),
-            vec(prop_oneof![5 => select(vec!["あ", "い", "漢", "字", "な", "娘", "モ", "ー", "な。な", "娘。"]).prop_map(|x| Some(x)), 1 => Just(None)], 0..30),
+            vec(prop_oneof![5 => select(vec!["あ", "い", "漢", "字", "な", "娘", "モ", "ー", "な。な", "娘。", "\\", "¥", "/", "-", "_", "^", "|", "*", "+", "$", "~"]).prop_map(|x| Some(x)), 1 => Just(None)], 0..30),
             any::<bool>(),
         )
             .prop_map(|(words, term, body, checker)| {
